@@ -85,10 +85,11 @@ def run(cx):
     if b:
         dag = b.dag()
         # the accumulator
-        acc = None
-        for l, loc in enumerate(b.locals):
-            if loc['n'] == 'sums':
-                acc = l
+        # found by role, not by name: the zero-initialised vector of 2K+1 moments, the K x 1 right-hand side, the K x K matrix
+        accs = cx.locals_by_def(b, "(call vec::from_elem 0.0 _)")
+        acc = accs[0] if len(accs) == 1 else None
+        rhs_l = set(cx.locals_by_def(b, "(call Matrix::zeros _ 1)"))
+        mat_l = set(cx.locals_by_def(b, "(call Matrix::zeros $k $k)"))
         cx.ob('INDEXCOV', 'least_squares:accumulator', acc is not None, 'the moment accumulator `sums` exists')
         if acc is not None:
             init = [d for d in b.defs().get(acc, []) if d[2] == 'call']
@@ -122,7 +123,7 @@ def run(cx):
                 for si, s in enumerate(b.blocks[bi]['stmts']):
                     pass
             # reads of sums outside the accumulation: the value stored into `matrix`
-            mat = [m for m in b.mutations() if b.local_name(m.root) == 'matrix' and m.kind == 'store']
+            mat = [m for m in b.mutations() if m.root in mat_l and m.kind == 'store']
             read_idx = []
             for m in mat:
                 val = simplify(dag.rvalue(m.data['rv'], m.bb, m.idx))
@@ -170,12 +171,12 @@ def run(cx):
         oke = len(sample_loops) == 1
         if oke and acc is not None:
             h, blocks, backs = sample_loops[0]
-            acc_blocks = [m.bb for m in b.mutations() if m.kind == 'store' and (m.root == acc or b.local_name(m.root) == 'rhs') and m.bb in blocks]
+            acc_blocks = [m.bb for m in b.mutations() if m.kind == 'store' and (m.root == acc or m.root in rhs_l) and m.bb in blocks]
             inner = [lp for lp in loops if lp[0] != h and lp[0] in blocks and any(x in lp[1] for x in acc_blocks)]
             oke = len(inner) >= 2 and all(all(b.dominates(lp[0], s) for s in backs) for lp in inner)
         cx.ob('ORDER', 'least_squares:every-sample', oke,
               'every sample (x_i, y_i, w_i) reaches both accumulation loops: no sample is skipped on any path of the sample loop (a dropped sample changes the objective being minimised)', where=b.file)
-        rhs = [m for m in b.mutations() if b.local_name(m.root) == 'rhs' and m.kind == 'store']
+        rhs = [m for m in b.mutations() if m.root in rhs_l and m.kind == 'store']
         okr = False
         for m in rhs:
             val = simplify(dag.rvalue(m.data['rv'], m.bb, m.idx))
@@ -293,7 +294,7 @@ def run(cx):
             if bi not in b.reachable():
                 continue
             for si, s in enumerate(b.blocks[bi]['stmts']):
-                if b.local_name(s['pl']['l']) == 'best_circle' and not s['pl']['p']:
+                if not s['pl']['p'] and s['rv']['k'] == 'agg':     # any whole-local assignment of Some(candidate): the running best
                     v = simplify(b.dag().rvalue(s['rv'], bi, si))
                     if v[0] == 'agg' and v[1].endswith('Option::Some'):
                         g = [a for a, p in cx.guards(b, bi) if p and a[0] == 'lt']
